@@ -7,39 +7,52 @@ import Circomspect.Lemmas.AliasLemmas
 namespace Circomspect.LessThanPass
 open Circomspect.SignalAssign (Acc accAlias CAcc denotes denotesL accAlias_of_denotes)
 
-/-- a value is reported exactly when it is an input of `LessThan` and no `Num2Bits` whose size is known and passes the threshold
-    of the curve has it as its input -/
-theorem mem_reported (c : Curve.Curve) (ss : List Stmt) (v : String) :
-    v ∈ reported c ss ↔ Input.lessThan v ∈ inputs ss ∧
-      ¬ ∃ k, Input.num2bits v (some k) ∈ inputs ss ∧ Curve.rangeChecked c k = true := by
-  unfold reported
-  simp only [List.mem_filter, List.mem_eraseDups, List.mem_filterMap, Bool.not_eq_true', List.any_eq_false]
+theorem covered_iff (c : Curve.Curve) (ins : List Input) (v : Val) (b : Nat) :
+    covered c ins v b = true ↔ ∃ w k b2, Input.num2bits w (some k) b2 ∈ ins ∧ w.1 = v.1 ∧ Curve.rangeChecked c k = true ∧
+      (v.2 = true ∨ b2 = b) := by
+  unfold covered
+  simp only [List.any_eq_true]
   constructor
-  · rintro ⟨⟨i, hi, hsome⟩, hnone⟩
-    constructor
-    · cases i with
-      | lessThan w => simp at hsome; subst hsome; exact hi
-      | num2bits w s => simp at hsome
-    · rintro ⟨k, hk, hr⟩
-      have := hnone _ hk
-      simp [hr] at this
-  · rintro ⟨hl, hn⟩
-    refine ⟨⟨_, hl, rfl⟩, ?_⟩
-    intro i hi
+  · rintro ⟨i, hi, h⟩
     cases i with
-    | lessThan w => simp
-    | num2bits w s =>
+    | lessThan w b1 => simp at h
+    | num2bits w s b2 =>
       cases s with
-      | none => simp
+      | none => simp at h
       | some k =>
-        by_cases hw : w = v
-        · subst hw
-          have : Curve.rangeChecked c k = false := by
-            cases hr : Curve.rangeChecked c k with
-            | false => rfl
-            | true => exact absurd ⟨k, hi, hr⟩ hn
-          simp [this]
-        · simp [hw]
+        simp only [Bool.and_eq_true, beq_iff_eq, Bool.or_eq_true] at h
+        exact ⟨w, k, b2, hi, h.1.1, h.1.2, h.2⟩
+  · rintro ⟨w, k, b2, hi, h1, h2, h3⟩
+    exact ⟨_, hi, by simp only [Bool.and_eq_true, beq_iff_eq, Bool.or_eq_true]; exact ⟨⟨h1, h2⟩, h3⟩⟩
+
+/-- an expression is reported exactly when some assignment of it to an input of `LessThan` is not covered: no `Num2Bits` of known,
+    qualifying size has the same expression as its input — in the same basic block, if the expression reads a local variable -/
+theorem mem_reported (c : Curve.Curve) (ss : List Stmt) (t : String) :
+    t ∈ reported c ss ↔ ∃ v b, Input.lessThan v b ∈ inputs ss ∧ v.1 = t ∧
+      ¬ ∃ w k b2, Input.num2bits w (some k) b2 ∈ inputs ss ∧ w.1 = v.1 ∧ Curve.rangeChecked c k = true ∧ (v.2 = true ∨ b2 = b) := by
+  unfold reported
+  simp only [List.mem_eraseDups, List.mem_filterMap]
+  constructor
+  · rintro ⟨i, hi, h⟩
+    cases i with
+    | num2bits w s b2 => simp at h
+    | lessThan v b =>
+      simp only at h
+      split at h
+      · cases h
+      · rename_i hc
+        simp only [Option.some.injEq] at h
+        refine ⟨v, b, hi, h, ?_⟩
+        intro hex
+        exact hc ((covered_iff c _ v b).mpr hex)
+  · rintro ⟨v, b, hi, ht, hn⟩
+    refine ⟨_, hi, ?_⟩
+    simp only
+    have : covered c (inputs ss) v b = false := by
+      cases hcv : covered c (inputs ss) v b with
+      | false => rfl
+      | true => exact absurd ((covered_iff c _ v b).mp hcv) hn
+    simp [this, ht]
 
 /-- the candidates are the instantiations recorded for a component that may be the one the access refers to -/
 theorem mem_candidates (cs : List (Key × Inst)) (k : Key) (t : Inst) :
